@@ -21,6 +21,9 @@ Body grammar (JSON lists; booleans may be 0/1 or true/false):
         staticmethod reached through the class / an instance
   ['nt',b,B,LATE]     with sre(reraise=b) as c': B   and, if the with ended normally, LATE on the exited c'
   ['hnt',k,b,B,LATE]  try: raise E[k] / except: with sre(reraise=b) as c': B   and, after the try, LATE on c'
+  ['ec',B]            with c: B   - the context object the operations address is entered (again): one object
+                      created once and used for several failures
+  ['sw',B]            try: B / except BaseException: pass
 """
 import contextlib
 import errno
@@ -52,7 +55,11 @@ RULE = ('handler bodies over {nop, raise-and-catch, raise, reraise on/off, neste
         '(reached through the class and through an instance), as context manager and called directly, alone and two '
         'filters interleaved, remove_path_on_error (default / custom / raising remove x '
         'absent / file / directory) and raise_with_cause around all bodies of <= 2 operations; operations (force_reraise, '
-        'capture, ...) on a context after its with block ended normally, inside and after the except clause; plus random bodies '
+        'capture, ...) on a context after its with block ended normally, inside and after the except clause; ONE context '
+        'object entered two or three times for different failures (after a re-raise, flag off, a body exception, '
+        'force_reraise, capture); every flag pattern x exception classes including KeyboardInterrupt / SystemExit / '
+        'GeneratorExit subclasses (with and without constructor arguments); real path kinds incl. dangling / looping '
+        'symlinks; plus random bodies '
         'over the whole grammar. A case is non-trivial when its body contains at least one helper operation and at '
         'least one exception was actually raised (some traceback is non-empty); distinct by (flag, kinds, path, body)')
 TRUSTED_BASE = [
@@ -69,7 +76,8 @@ UNMODELLED = [
     '__context__ (assigned by the interpreter on every raise made while another exception is handled) is not in the '
     'model; the implementation-only oracle checks it together with __cause__, __suppress_context__, args and notes',
     'greenthread switches clearing the exception context',
-    'StopIteration / GeneratorExit thrown through remove_path_on_error; predicates with side effects',
+    'StopIteration thrown through remove_path_on_error; predicates with side effects; a context object entered '
+    'again inside its own with block (generators avoid it)',
     'the text handed to logger.error (only which exception and traceback were formatted is compared)',
 ]
 ASSUMPTIONS = [
@@ -83,7 +91,14 @@ ASSUMPTIONS = [
     'the same object propagates (body raised => logged when the flag is on): accepted as stated by the property',
 ]
 
-KINDS = ['plain', 'args', 'chained', 'prior', 'base', 'ctx']
+KINDS_CORE = ['plain', 'args', 'chained', 'prior', 'base', 'ctx']
+# BaseException subclasses that are not Exception: subclasses of KeyboardInterrupt / SystemExit / GeneratorExit
+# (plain and with mandatory constructor arguments); 'base' above is a direct subclass of BaseException
+KINDS_EXIT = ['kbd', 'sysexit', 'genexit', 'kbdargs', 'sysargs']
+KINDS = KINDS_CORE + KINDS_EXIT
+KIND_BASE = {'base': BaseException, 'kbd': KeyboardInterrupt, 'sysexit': SystemExit, 'genexit': GeneratorExit,
+             'kbdargs': KeyboardInterrupt, 'sysargs': SystemExit}
+KIND_ARGS = ('args', 'kbdargs', 'sysargs')
 FORMS = [0, 1, 2, 3, 4, 5]
 # what the protected path of remove_path_on_error is (really built in a scratch directory): absent, a regular
 # file, a directory, a symbolic link to a file / to a directory / to nothing (dangling) / to itself (loop)
@@ -123,10 +138,13 @@ def size(b):
         return 1 + size(b[2]) + size(b[3])
     if t == 'hnt':
         return 1 + size(b[3]) + size(b[4])
+    if t in ('ec', 'sw'):
+        return 1 + size(b[1])
     return 1
 
 
-CHILD_IDX = {'seq': (1, 2), 'nest': (2,), 'h': (2,), 'rp': (2,), 'fx': (4,), 'nt': (2, 3), 'hnt': (3, 4)}
+CHILD_IDX = {'seq': (1, 2), 'nest': (2,), 'h': (2,), 'rp': (2,), 'fx': (4,), 'nt': (2, 3), 'hnt': (3, 4),
+             'ec': (1,), 'sw': (1,)}
 
 
 def children(b):
@@ -134,7 +152,7 @@ def children(b):
 
 
 def has_helper(b):
-    return b[0] in ('nest', 'fr', 'cap', 'fx', 'fc', 'rp', 'rwc', 'nt', 'hnt') or any(has_helper(c) for c in children(b))
+    return b[0] in ('nest', 'fr', 'cap', 'fx', 'fc', 'rp', 'rwc', 'nt', 'hnt', 'ec') or any(has_helper(c) for c in children(b))
 
 
 def has_rp(b):
@@ -152,6 +170,10 @@ def force_caught(b, under_filter=False):
         return force_caught(b[2], under_filter)
     if t == 'fx':
         return force_caught(b[4], True)
+    if t == 'ec':                       # its __exit__ calls force_reraise()
+        return under_filter or force_caught(b[1], under_filter)
+    if t == 'sw':
+        return force_caught(b[1], True)
     return False
 
 
@@ -160,6 +182,8 @@ def in_class_N1(b):
     if b[0] in ('nest', 'nt') and force_caught(b[2]):
         return True
     if b[0] == 'hnt' and force_caught(b[3]):
+        return True
+    if b[0] == 'ec' and force_caught(b[1]):
         return True
     return any(in_class_N1(c) for c in children(b))
 
@@ -192,11 +216,13 @@ def ser(b):
         return 'nt %d %s %s' % (B(b[1]), ser(b[2]), ser(b[3]))
     if t == 'hnt':
         return 'hnt %d %d %s %s' % (b[1], B(b[2]), ser(b[3]), ser(b[4]))
+    if t in ('ec', 'sw'):
+        return '%s %s' % (t, ser(b[1]))
     raise ValueError('bad body %r' % (b,))
 
 
 def case_line(case):
-    excs = ','.join('%d:%d:%d:%s:%d' % (k == 'args', k != 'base', PRIOR_LEN if k == 'prior' else 0,
+    excs = ','.join('%d:%d:%d:%s:%d' % (k in KIND_ARGS, k not in KIND_BASE, PRIOR_LEN if k == 'prior' else 0,
                                         cause_index(i) if k == 'chained' else 'N', k == 'chained')
                     for i, k in enumerate(case['kinds']))
     return req('run', B(case['flag']), case['path'], excs, ser(case['body']))
@@ -292,6 +318,20 @@ def render(body, spy):
             if t != 'nest':
                 # reached only when the with statement (and the try) ended normally: operations on the exited c<i>
                 emit(b[-1], ind, i)
+        elif t == 'ec':
+            if spy:
+                lines.append(p + 'with SPY.sre_out(%d):' % ctx)
+                lines.append(p + '    with c%d:' % ctx)
+                lines.append(p + '        with SPY.sre_in(%d, c%d):' % (ctx, ctx))
+                emit(b[1], ind + 3, ctx)
+            else:
+                lines.append(p + 'with c%d:' % ctx)
+                emit(b[1], ind + 1, ctx)
+        elif t == 'sw':
+            lines.append(p + 'try:')
+            emit(b[1], ind + 1, ctx)
+            lines.append(p + 'except BaseException:')
+            lines.append(p + '    pass')
         elif t == 'fr':
             q = p
             if b[1]:
@@ -636,8 +676,8 @@ class Env:
     def make_excs(self, kinds):
         E, classes, preset = [], [], []
         for k, kind in enumerate(kinds):
-            base = BaseException if kind == 'base' else Exception
-            if kind == 'args':
+            base = KIND_BASE.get(kind, Exception)
+            if kind in KIND_ARGS:
                 def __init__(self, a, b, _base=base):
                     _base.__init__(self, a, b)
                 cls = type('U%d' % k, (base,), {'__init__': __init__})
@@ -802,25 +842,43 @@ def bodies_upto(n):
 LATES = [['fr', 0], ['fr', 1], ['cap'], ['seq', ['cap'], ['fr', 0]], ['seq', ['fr', 1], ['fr', 0]],
          ['seq', ['sr', 1], ['fr', 0]], ['seq', ['rc', 0], ['fr', 0]]]
 
+# ways of leaving a with block with the flag off / on: never touched, switched off, off-on, off-on-off, ...
+FLAG_PATTERNS = [['nop'], ['sr', 0], ['sr', 1], ['seq', ['sr', 0], ['sr', 1]],
+                 ['seq', ['sr', 0], ['seq', ['sr', 1], ['sr', 0]]], ['seq', ['rc', 1], ['sr', 0]],
+                 ['seq', ['sr', 1], ['sr', 0]], ['h', 1, ['sr', 0]]]
+# what happens to the context object between two uses
+REUSE_BETWEEN = [None, ['h', 2, ['cap']], ['sw', ['fr', 0]], ['sw', ['h', 2, ['ec', ['nop']]]]]
+
 PREDS = [([0], []), ([1], []), ([], []), ([0, 1], []), ([], [[0, 1]]), ([1], [[0, 0]]), ([0], [[1, 0]])]
 
 
-def random_body(rng, budget, depth=0):
-    """random body over the whole grammar with about `budget` operations"""
+def random_body(rng, budget, depth=0, entered=False):
+    """random body over the whole grammar with about `budget` operations; `entered` says the context the
+    operations address is inside its own with block (it is then not entered again: not modelled by the oracle)"""
     items = []
     while budget > 0:
         r = rng.random()
         k = rng.randrange(3)
         if depth < 4 and budget > 1 and r < 0.38:
             sub_budget = rng.randrange(1, budget)
-            sub = random_body(rng, sub_budget, depth + 1)
-            kind = rng.choice(['nest', 'nest', 'h', 'h', 'fx', 'rp', 'nt', 'hnt'])
+            kind = rng.choice(['nest', 'nest', 'h', 'h', 'fx', 'rp', 'nt', 'hnt', 'ec', 'sw', 'sw'])
+            if kind == 'ec' and entered:
+                kind = 'h'
+            sub = random_body(rng, sub_budget, depth + 1,
+                              entered=True if kind in ('nest', 'nt', 'hnt', 'ec') else entered)
             if kind == 'nest':
                 items.append(['nest', rng.randrange(2), sub])
+            elif kind == 'ec':
+                items.append(['ec', sub])
+            elif kind == 'sw':
+                items.append(['sw', sub])
             elif kind in ('nt', 'hnt'):
                 # a body that usually completes with the flag off, then operations on the exited context
                 inner = seq_of([sub, ['sr', 0]]) if rng.random() < 0.6 else sub
-                late = rng.choice(LATES) if rng.random() < 0.7 else random_body(rng, rng.randrange(1, 3), depth + 1)
+                r2 = rng.random()
+                late = (rng.choice(LATES) if r2 < 0.6 else
+                        ['ec', random_body(rng, rng.randrange(1, 3), depth + 1, True)] if r2 < 0.8 else
+                        random_body(rng, rng.randrange(1, 3), depth + 1, False))
                 items.append(['nt', rng.randrange(2), inner, late] if kind == 'nt'
                              else ['hnt', k, rng.randrange(2), inner, late])
             elif kind == 'h':
@@ -862,13 +920,16 @@ def gen_cases(ctx):
     # 1. context-manager form: try: raise E[0] / except: with sre(reraise=b) as c: BODY
     # 2. direct-call form: c0 = sre(reraise=flag); BODY
     for m in range(0, n + 1):
-        if m <= 3:
+        if m <= 2:
             kind_sets = [[k, k, 'plain'] for k in KINDS]
+        elif m == 3:
+            kind_sets = [[k, k, 'plain'] for k in ('plain', 'args', 'chained', 'base', 'ctx')]
         else:
             kind_sets = [['plain', 'args', 'plain'], ['args', 'plain', 'plain']]
         for s in seqs(m):
             body = seq_of(s)
-            extra = [rng.choice(KINDS), rng.choice(KINDS), 'plain'] if m > 3 else None
+            extra = ([rng.choice(KINDS), rng.choice(KINDS), 'plain'] if m > 3 else
+                     [rng.choice(['prior'] + KINDS_EXIT)] * 2 + ['plain'] if m == 3 else None)
             for kinds in kind_sets + ([extra] if extra else []):
                 for b in (0, 1):
                     yield {'flag': 1, 'kinds': kinds, 'path': 'file',
@@ -941,7 +1002,46 @@ def gen_cases(ctx):
                                'body': ['h', 0, ['nt', b, body, late]]}, 'late-in-except/%d' % m
                         yield {'flag': 1, 'kinds': kinds, 'path': 'file',
                                'body': ['hnt', 0, b, body, late]}, 'late-after-except/%d' % m
-    # 5. random bodies over the whole grammar
+    # 5. every way of having reraise off / on at exit x the exception classes (the exit-request families
+    #    KeyboardInterrupt / SystemExit / GeneratorExit, with and without mandatory constructor arguments, and a
+    #    direct BaseException subclass, next to plain ones) as the exception handled on entry
+    for pat in FLAG_PATTERNS:
+        for kind in KINDS:
+            kinds = [kind, kind, 'plain']
+            for b in (0, 1):
+                yield {'flag': 1, 'kinds': kinds, 'path': 'file', 'body': ['h', 0, ['nest', b, pat]]}, 'flag-pattern'
+                yield {'flag': b, 'kinds': kinds, 'path': 'file', 'body': ['h', 0, ['ec', pat]]}, 'flag-pattern'
+                yield {'flag': 1, 'kinds': kinds, 'path': 'file',
+                       'body': ['h', 0, ['nt', b, pat, ['fr', 0]]]}, 'flag-pattern'
+                yield {'flag': 1, 'kinds': kinds, 'path': 'file', 'body': ['rp', 'd', ['h', 0, ['nest', b, pat]]]}, \
+                    'flag-pattern'
+    # 6. ONE context object used for several failures (created once, `with ctxt:` in each handler): after a normal
+    #    re-raise, with reraise switched off, after a body exception, after force_reraise(), after an explicit
+    #    capture() or another use in between
+    ones = list(bodies_upto(1))
+    for flag in (0, 1):
+        for b1 in ones:
+            for b2 in ones + [['sr', 1], ['seq', ['sr', 1], ['rn', 1]]]:
+                for between in REUSE_BETWEEN:
+                    kind_sets = [['plain', 'plain', 'plain'], ['args', 'kbdargs', 'plain']]
+                    if between is None:
+                        kind_sets += [[rng.choice(KINDS), rng.choice(KINDS), 'plain']]
+                    for kinds in kind_sets:
+                        yield {'flag': flag, 'kinds': kinds, 'path': 'file',
+                               'body': seq_of([['sw', ['h', 0, ['ec', b1]]]] + ([between] if between else []) +
+                                              [['h', 1, ['ec', b2]]])}, 'reuse/two'
+    for b2 in ones + [['sr', 1]]:
+        for b in (0, 1):
+            for kind in ('plain', 'args', 'sysexit'):
+                yield {'flag': 1, 'kinds': [kind, kind, 'plain'], 'path': 'file',
+                       'body': ['h', 0, ['nt', b, ['sr', 0], ['ec', b2]]]}, 'reuse/nested-object'
+    for _ in range(400 if ctx.quick else 20000):
+        uses = [['h', rng.randrange(3), ['ec', seq_of([rng.choice(leaves((0, 1, 2)))
+                                                       for _ in range(rng.randrange(0, 3))])]]
+                for _ in range(3)]
+        yield {'flag': rng.randrange(2), 'kinds': [rng.choice(KINDS) for _ in range(3)], 'path': 'file',
+               'body': seq_of([['sw', uses[0]], ['sw', uses[1]], uses[2]])}, 'reuse/three'
+    # 7. random bodies over the whole grammar
     for _ in range(4000 if ctx.quick else 150000):
         body = random_body(rng, rng.randrange(1, 10))
         yield {'flag': rng.randrange(2), 'kinds': [rng.choice(KINDS) for _ in range(3)],
@@ -1060,6 +1160,11 @@ class Spy:
 
         def exit(val):
             self.check_sre(i, r, val)
+            if r['in'] is not None and r['in'][0] is None and r['in'][2]:
+                # the body completed with the flag on: __exit__ itself called force_reraise(), which uses the
+                # capture up (value and traceback are cleared) - a later force_reraise() on this object is a
+                # second one (the state of finding N1)
+                r['forced'] += 1
         return _Probe(enter, exit)
 
     def sre_in(self, i, c):
@@ -1359,6 +1464,20 @@ def search(ctx, seeds, full=False):
                               ['ctx', 'chained', 'plain']):
                     yield {'flag': 1, 'kinds': kinds, 'path': 'file', 'body': ['h', 0, ['nest', b, body]]}
                     yield {'flag': b, 'kinds': kinds, 'path': 'file', 'body': body}
+        for pat in FLAG_PATTERNS:
+            for kind in KINDS:
+                for b in (0, 1):
+                    yield {'flag': 1, 'kinds': [kind, kind, 'plain'], 'path': 'file', 'body': ['h', 0, ['nest', b, pat]]}
+                    yield {'flag': b, 'kinds': [kind, kind, 'plain'], 'path': 'file', 'body': ['h', 0, ['ec', pat]]}
+        ones = list(bodies_upto(1))
+        for flag in (0, 1):
+            for b1 in ones:
+                for b2 in ones + [['sr', 1]]:
+                    for between in (REUSE_BETWEEN if full else REUSE_BETWEEN[:2]):
+                        for kinds in (['plain', 'plain', 'plain'], ['args', 'sysargs', 'plain']):
+                            yield {'flag': flag, 'kinds': kinds, 'path': 'file',
+                                   'body': seq_of([['sw', ['h', 0, ['ec', b1]]]] + ([between] if between else []) +
+                                                  [['h', 1, ['ec', b2]]])}
         for body in bodies_upto(1 if not full else 2):
             for late in LATES:
                 for b in (0, 1):
